@@ -178,9 +178,21 @@ def make_app(shape, rec):
                 raise StopIteration
 
         it = It()
+
+        def close():
+            rec["closes"] += 1
+
+        if rec.get("separate"):
+            # PEP 3333: close() is looked for on the object the application returned, which need not be its own iterator
+            class Body:
+                def __iter__(self):
+                    return it
+
+            body = Body()
+            if shape.has_close:
+                body.close = close
+            return body
         if shape.has_close:
-            def close():
-                rec["closes"] += 1
             it.close = close
         return it
 
@@ -201,10 +213,11 @@ async def _run_asyncio(mw, scope, msgs, sent):
     await mw(scope, receive, send)
 
 
-def run_shape(worker, shape, scope, msgs, max_body):
+def run_shape(worker, shape, scope, msgs, max_body, separate=False):
     from hypercorn.middleware.wsgi import AsyncioWSGIMiddleware, TrioWSGIMiddleware
 
-    rec = {"threads": [], "calls": 0, "closes": 0, "loop_thread": threading.get_ident(), "body_seen": None}
+    rec = {"threads": [], "calls": 0, "closes": 0, "loop_thread": threading.get_ident(), "body_seen": None,
+           "separate": separate}
     sent = []
     app = make_app(shape, rec)
     raised = False
@@ -243,7 +256,8 @@ def shape_cases(ctx, n):
         for i, p in enumerate(parts):
             msgs.append({"type": "http.request", "body": p, "more_body": i < len(parts) - 1})
         worker = "asyncio" if idx % 2 == 0 else "trio"
-        rec, sent, raised = run_shape(worker, shape, sc, [dict(m) for m in msgs], max_body)
+        separate = idx % 3 == 2
+        rec, sent, raised = run_shape(worker, shape, sc, [dict(m) for m in msgs], max_body, separate)
         sends = []
         for m in sent:
             if m["type"] == "http.response.start":
@@ -251,7 +265,7 @@ def shape_cases(ctx, n):
             else:
                 sends.append(["body", m.get("body", b""), bool(m.get("more_body", False))])
         obs = [sends, rec["closes"], raised, rec["calls"]]
-        case = {"kind": "shape", "worker": worker, "shape": shape.describe(), "max_body": max_body,
+        case = {"kind": "shape", "worker": worker, "shape": shape.describe(), "separate_iterator": separate, "max_body": max_body,
                 "body_len": total, "parts": [len(p) for p in parts], "root_path": sc["root_path"], "path": sc["path"], "obs": obs}
         fails = []
         # PEP 3333 oracle
